@@ -29,20 +29,31 @@ instance exceptDecEq [DecidableEq ε] [DecidableEq α] : DecidableEq (Except ε 
 
 /-! ### the tables the specification is written against -/
 
-def fgTable : List (String × Nat) :=
-  [("black", 30), ("red", 31), ("green", 32), ("yellow", 33), ("blue", 34), ("magenta", 35), ("cyan", 36), ("gray", 37)]
-def bgTable : List (String × Nat) :=
-  [("black", 40), ("red", 41), ("green", 42), ("yellow", 43), ("blue", 44), ("magenta", 45), ("cyan", 46), ("gray", 47)]
+/-- The six styles (a new STYLE would change rendering, so this table stays an equality). -/
 def styleTable : List (String × Nat) :=
   [("bold", 1), ("dark", 2), ("italic", 3), ("underline", 4), ("blink", 5), ("invert", 7)]
 def styleNames : List (String × Key) :=
   [("bold", .bold), ("dark", .dark), ("italic", .italic), ("underline", .underline), ("blink", .blink), ("invert", .invert)]
+/-- The eight canonical colour names (what `repr` prints: the number -> name tables). -/
 def colourNames : List String := ["black", "red", "green", "yellow", "blue", "magenta", "cyan", "gray"]
 def colourName (i : Fin 8) : String := colourNames[i.val]!
 
-/-- The live `FG_COLORS`, `BG_COLORS`, `STYLES` are the tables above. -/
-theorem C14_tables :
-    Generated.fgColors = fgTable ∧ Generated.bgColors = bgTable ∧ Generated.styles = styleTable := by
+/-- What the specification needs of the LIVE colour tables (`FG_COLORS`, `BG_COLORS`, regenerated every run) - any
+    table of names, aliases included, will do as long as it is well-formed:
+    every foreground value is one of the codes 30..37 and each of them has at least one name; likewise 40..47;
+    both tables have the same names in the same order and a name's background code is its foreground code + 10
+    (so `on_<name>` is the background of the SAME colour); the style table is the six styles. -/
+def TablesWF : Prop :=
+  (∀ p ∈ Generated.fgColors, 30 ≤ p.2 ∧ p.2 < 38) ∧
+  (∀ i : Fin 8, Generated.fgColors.any (fun p => p.2 == 30 + i.val) = true) ∧
+  (∀ p ∈ Generated.bgColors, 40 ≤ p.2 ∧ p.2 < 48) ∧
+  (∀ i : Fin 8, Generated.bgColors.any (fun p => p.2 == 40 + i.val) = true) ∧
+  Generated.bgColors = Generated.fgColors.map (fun p => (p.1, p.2 + 10)) ∧
+  Generated.styles = styleTable
+
+/-- The live tables are well-formed (kernel evaluation over the regenerated tables). -/
+theorem C14_tables : TablesWF := by
+  unfold TablesWF
   decide +kernel
 
 /-! ### what a specification denotes -/
@@ -65,10 +76,10 @@ def afterOn (s : String) : String := String.ofList (s.toList.drop 3)
     colour, or a style; `none` = nothing (unknown name or not a string). -/
 def posName (lower : String → String) : ArgVal → Option (Key × Option (Fin 8))
   | .str s =>
-    match colourOfName fgTable 30 (lower s) with
+    match colourOfName Generated.fgColors 30 (lower s) with
     | some c => some (.fg, some c)
     | none =>
-      match (if onPrefix (lower s) then colourOfName bgTable 40 (lower (afterOn s)) else none) with
+      match (if onPrefix (lower s) then colourOfName Generated.bgColors 40 (lower (afterOn s)) else none) with
       | some c => some (.bg, some c)
       | none => (styleNames.lookup (lower s)).map fun k => (k, none)
   | _ => none
@@ -115,11 +126,11 @@ def denote (lower : String → String) (args : List ArgVal) (kwargs : Kw) : Opti
     if kw.all (fun p => isKnownKey p.1) then do
       let cols (k : Key) : List (Fin 8) := named.filterMap fun p => if p.1 = k then p.2 else none
       let has (k : Key) : Bool := named.any fun p => p.1 = k
-      let bg ← resolveColour bgTable 40 (kw.get? "bg") (cols .bg)
+      let bg ← resolveColour Generated.bgColors 40 (kw.get? "bg") (cols .bg)
       let blink ← resolveStyle (kw.get? "blink") (has .blink)
       let bold ← resolveStyle (kw.get? "bold") (has .bold)
       let dark ← resolveStyle (kw.get? "dark") (has .dark)
-      let fg ← resolveColour fgTable 30 (kw.get? "fg") (cols .fg)
+      let fg ← resolveColour Generated.fgColors 30 (kw.get? "fg") (cols .fg)
       let invert ← resolveStyle (kw.get? "invert") (has .invert)
       let italic ← resolveStyle (kw.get? "italic") (has .italic)
       let underline ← resolveStyle (kw.get? "underline") (has .underline)
@@ -374,7 +385,7 @@ example : sharedAtts [⟨[], {}⟩, ⟨['a'], { fg := some 1, bold := some true 
 /-- A `lower` that maps every string to itself - correct for the already lower-case table names. -/
 def idl : String → String := fun s => s
 
-/-- Foreground colour i: positional name ≡ `fg=name` ≡ `fg=30+i` ≡ `style=name` ≡ the helper of that name. -/
+/-- Foreground colour i by its CANONICAL name (the one `repr` prints): positional name ≡ `fg=name` ≡ `fg=30+i` ≡ `style=name` ≡ the helper of that name. -/
 theorem C14_spellings_fg : ∀ i : Fin 8,
     parseArgs idl [.str (colourName i)] [] = .ok { fg := some i } ∧
     parseArgs idl [] [("fg", .str (colourName i))] = .ok { fg := some i } ∧
@@ -384,7 +395,7 @@ theorem C14_spellings_fg : ∀ i : Fin 8,
     parseArgs idl [] (fmtfuncKw (colourName i) []) = .ok { fg := some i } := by
   decide +kernel
 
-/-- Background colour i: `'on_'+name` ≡ `bg=name` ≡ `bg=40+i` ≡ `style='on_'+name` ≡ the helper `on_<name>`. -/
+/-- Background colour i by its canonical name: `'on_'+name` ≡ `bg=name` ≡ `bg=40+i` ≡ `style='on_'+name` ≡ the helper `on_<name>`. -/
 theorem C14_spellings_bg : ∀ i : Fin 8,
     parseArgs idl [.str ("on_" ++ colourName i)] [] = .ok { bg := some i } ∧
     parseArgs idl [] [("bg", .str (colourName i))] = .ok { bg := some i } ∧
@@ -415,6 +426,39 @@ theorem C14_spellings_style : ∀ p ∈ styleNames,
 theorem C14_spellings_fmtfuncs : ∀ p ∈ Generated.fmtfuncs,
     parseArgs idl [] (fmtfuncKw p.2 []) = parseArgs idl (if p.2 = "" then [] else [.str p.2]) [] ∧
     (parseArgs idl [] (fmtfuncKw p.2 [])).toOption.isSome := by
+  decide +kernel
+
+/-- EVERY name of the live foreground table (aliases included): positional ≡ `fg=name` ≡ `fg=number` ≡ `style=name`,
+    all meaning the colour whose code the table gives. -/
+theorem C14_spellings_live_fg : ∀ p ∈ Generated.fgColors,
+    (colourIndex 30 (.int (p.2 : Nat))).isSome = true ∧
+    parseArgs idl [.str p.1] [] = .ok { fg := colourIndex 30 (.int (p.2 : Nat)) } ∧
+    parseArgs idl [] [("fg", .str p.1)] = .ok { fg := colourIndex 30 (.int (p.2 : Nat)) } ∧
+    parseArgs idl [] [("fg", .int p.2)] = .ok { fg := colourIndex 30 (.int (p.2 : Nat)) } ∧
+    parseArgs idl [] [("style", .str p.1)] = .ok { fg := colourIndex 30 (.int (p.2 : Nat)) } := by
+  decide +kernel
+
+/-- EVERY name of the live background table: `'on_'+name` ≡ `bg=name` ≡ `bg=number` ≡ `style='on_'+name`; and
+    `on_<name>` is the background of the SAME colour index as the foreground `<name>`. -/
+theorem C14_spellings_live_bg : ∀ p ∈ Generated.bgColors,
+    (colourIndex 40 (.int (p.2 : Nat))).isSome = true ∧
+    parseArgs idl [.str ("on_" ++ p.1)] [] = .ok { bg := colourIndex 40 (.int (p.2 : Nat)) } ∧
+    parseArgs idl [] [("bg", .str p.1)] = .ok { bg := colourIndex 40 (.int (p.2 : Nat)) } ∧
+    parseArgs idl [] [("bg", .int p.2)] = .ok { bg := colourIndex 40 (.int (p.2 : Nat)) } ∧
+    parseArgs idl [] [("style", .str ("on_" ++ p.1))] = .ok { bg := colourIndex 40 (.int (p.2 : Nat)) } ∧
+    (parseArgs idl [.str p.1] []).toOption.map Atts.fg = some (colourIndex 40 (.int (p.2 : Nat))) := by
+  decide +kernel
+
+/-- The helpers of the live `fmtfuncs` module: whenever a helper's NAME is itself an accepted positional spelling, the
+    helper means exactly that spelling (a helper bound to the wrong word fails here); and every one of the 8 + 8
+    colours and the 6 styles has at least one helper. -/
+theorem C14_fmtfuncs_names :
+    (∀ p ∈ Generated.fmtfuncs, (parseArgs idl [.str p.1] []).toOption.isSome = true →
+        parseArgs idl [] (fmtfuncKw p.2 []) = parseArgs idl [.str p.1] []) ∧
+    (∀ i : Fin 8, Generated.fmtfuncs.any (fun p => parseArgs idl [] (fmtfuncKw p.2 []) == .ok { fg := some i }) = true) ∧
+    (∀ i : Fin 8, Generated.fmtfuncs.any (fun p => parseArgs idl [] (fmtfuncKw p.2 []) == .ok { bg := some i }) = true) ∧
+    (∀ q ∈ styleNames, Generated.fmtfuncs.any (fun p => parseArgs idl [] (fmtfuncKw p.2 []) == .ok (styleAtts q.2 true)) = true) ∧
+    Generated.fmtfuncs.any (fun p => p.2 == "") = true := by
   decide +kernel
 
 theorem C14_spellings_on_dark :
